@@ -976,7 +976,13 @@ pub fn mutate_children(rng: &mut Rng, ch: &[(Vec<u8>, T)], depth: u32, inode: &m
                 }
                 75..=84 => {
                     stats.hit("c11.e2e.type-change");
-                    Some(T::File { content: gen_content(rng), mtime: *mtime, ctime: *ctime, inode: *ino })
+                    if rng.chance(1, 3) {
+                        stats.hit("c11.e2e.type-change.symlink-to-dir");
+                        *inode += 1;
+                        Some(T::Dir { children: gen_children(rng, 0, inode), mtime: *mtime, ctime: *ctime, inode: *ino })
+                    } else {
+                        Some(T::File { content: gen_content(rng), mtime: *mtime, ctime: *ctime, inode: *ino })
+                    }
                 }
                 85..=92 => None,
                 _ => Some(T::Link { target: target.clone(), mtime: mtime + 1, ctime: *ctime, inode: *ino }),
@@ -988,7 +994,12 @@ pub fn mutate_children(rng: &mut Rng, ch: &[(Vec<u8>, T)], depth: u32, inode: &m
                 }
                 80..=87 => {
                     stats.hit("c11.e2e.type-change");
-                    Some(T::File { content: gen_content(rng), mtime: *mtime, ctime: *ctime, inode: *ino })
+                    if rng.chance(1, 3) {
+                        stats.hit("c11.e2e.type-change.dir-to-symlink");
+                        Some(T::Link { target: b"t".to_vec(), mtime: *mtime, ctime: *ctime, inode: *ino })
+                    } else {
+                        Some(T::File { content: gen_content(rng), mtime: *mtime, ctime: *ctime, inode: *ino })
+                    }
                 }
                 88..=93 => {
                     stats.hit("c11.e2e.remove");
